@@ -17,7 +17,7 @@ RULE = ("(a) exhaustive: <=3 samples x <=2 records over GT alphabet {0/0,0/1,1/1
         "contigs) rendered to VCF and run through `sfs create`: stdout compared as exact text with the model's integers, "
         "exit status, 'Skipped X/Y' line; a slice also as BCF; (c) garbage (other ploidy) in unselected columns must not "
         "change the output; (d) joint spectrum marginalized over a population = spectrum of the remaining populations on "
-        "complete data. non-trivial = at least one counted and (for b) one skipped record")
+        "complete data. non-trivial = at least one counted and (for b) one skipped record; the map given inline with labels containing '=', spaces, '#', ':' (split at the first '=')")
 
 ALPHA = ["0/0", "0/1", "1/1", "./.", "./1", "1/2", "0|1"]
 
@@ -125,6 +125,14 @@ def check(rep, tier, seed):
         sfiles.append(path)
         mc = "create 0 %s %s - %s" % (",".join(cols), model_samples(sm), model_records(recs))
         jobs.append((["create", "-S", path], render_vcf(cols, recs))); mcases.append(mc); metas.append("samples-file-spaced-labels:" + mc)
+    # the same with the map given INLINE (-s sample=label,...) and labels that contain '=', spaces, '#', ':' or are numbers:
+    # an entry is split at its FIRST '=' (Proofs/SampleParseGenP.v), everything after it is the label
+    for k in range(10 if tier == "quick" else 100):
+        cols, recs = random_callset(rng, nsamples=rng.randrange(3, 9), p_skip=0.1)
+        sm = random_map(rng, cols, allow_unnamed=False)
+        odd = {l: rng.choice(["grp=%s", "%s=", "=%s", "a=b=%s", "pop %s", "#%s", "%s:1", "0%s", "==%s=="]) % l for l in dict.fromkeys(l for _, l in sm)}
+        mc = "create 0 %s %s - %s" % (",".join(cols), model_samples(sm), model_records(recs))
+        jobs.append((["create", "-s", ",".join("%s=%s" % (n, odd[l]) for n, l in sm)], render_vcf(cols, recs))); mcases.append(mc); metas.append("inline-odd-labels:" + mc)
     # a samples file beyond 64 KiB (about a thousand samples with long names): every line of it counts
     ncol = 1000
     bcols = ["sample_%04d_%s" % (i, "x" * 56) for i in range(ncol)]
